@@ -1,0 +1,257 @@
+//! Crate-private EBR pieces exported for the conformance harness (`--cfg circ_verif` only).
+#![allow(missing_docs, clippy::missing_safety_doc, dead_code)]
+
+use super::collector::{Collector, LocalHandle};
+use super::internal::Local;
+use super::sync::list::{Entry, IsElement, IterError, List};
+use super::sync::queue::Queue;
+use super::{cs, default_collector, Guard, RawShared};
+use crate::verif::LocalInfo;
+
+pub(crate) fn default_try_advance() {
+    let g = cs();
+    default_collector().global.try_advance(&g);
+}
+
+pub(crate) fn default_seal_local_bag() {
+    let g = cs();
+    if let Some(local) = unsafe { g.local.as_ref() } {
+        local.push_to_global(&g);
+    }
+}
+
+pub(crate) fn default_local_info() -> LocalInfo {
+    let g = unsafe { core::mem::ManuallyDrop::new(peek_guard()) };
+    let info = unsafe { (*g.local).verif_info() };
+    info
+}
+
+pub(crate) fn default_local_id() -> usize {
+    let g = unsafe { core::mem::ManuallyDrop::new(peek_guard()) };
+    g.local as usize
+}
+
+/// A guard value for the calling thread's default participant that does not pin (never dropped).
+unsafe fn peek_guard() -> Guard {
+    thread_local! {
+        static LOCAL_ID: core::cell::Cell<usize> = const { core::cell::Cell::new(0) };
+    }
+    let id = LOCAL_ID.with(|c| c.get());
+    if id != 0 {
+        return Guard {
+            local: id as *const Local,
+        };
+    }
+    let g = cs();
+    let id = g.local as usize;
+    LOCAL_ID.with(|c| c.set(id));
+    drop(g);
+    Guard {
+        local: id as *const Local,
+    }
+}
+
+pub(crate) unsafe fn peek_local(local: usize) -> LocalInfo {
+    (*(local as *const Local)).verif_info()
+}
+
+pub(crate) unsafe fn default_pending_bags() -> usize {
+    default_collector().global.verif_pending_bags()
+}
+
+/// A private collector.
+pub struct VCollector(Collector);
+
+impl Default for VCollector {
+    fn default() -> Self {
+        Self::new()
+    }
+}
+
+impl VCollector {
+    pub fn new() -> Self {
+        VCollector(Collector::new())
+    }
+    pub fn register(&self) -> VHandle {
+        VHandle(self.0.register())
+    }
+    pub fn global_epoch(&self) -> usize {
+        self.0.global_epoch().value()
+    }
+    pub unsafe fn pending_bags(&self) -> usize {
+        self.0.global.verif_pending_bags()
+    }
+    /// Epochs of the sealed bags in the global queue, oldest first.
+    pub unsafe fn pending_bag_epochs(&self) -> Vec<usize> {
+        self.0.global.verif_bag_epochs()
+    }
+}
+
+/// A participant of a private collector.
+pub struct VHandle(LocalHandle);
+
+unsafe impl Send for VHandle {}
+
+impl VHandle {
+    pub fn pin(&self) -> Guard {
+        self.0.pin()
+    }
+    pub fn local_id(&self) -> usize {
+        self.0.local as usize
+    }
+    pub fn info(&self) -> LocalInfo {
+        unsafe { (*self.0.local).verif_info() }
+    }
+}
+
+pub fn guard_local_id(g: &Guard) -> usize {
+    g.local as usize
+}
+
+/// Defers `f` through `g`'s participant (any closure size/alignment).
+pub unsafe fn defer_unchecked<F: FnOnce()>(g: &Guard, f: F) {
+    g.defer_unchecked(f)
+}
+
+/// One `try_advance` on the collector `g` belongs to; returns the resulting global epoch.
+pub fn guard_try_advance(g: &Guard) -> usize {
+    match unsafe { g.local.as_ref() } {
+        Some(local) => local.global().try_advance(g).value(),
+        None => 0,
+    }
+}
+
+/// One `collect` pass on the collector `g` belongs to.
+pub fn guard_collect(g: &Guard) {
+    if let Some(local) = unsafe { g.local.as_ref() } {
+        local.global().collect(g);
+    }
+}
+
+/// `repin_without_collect` on `g`'s participant.
+pub fn guard_repin_without_collect(g: &Guard) {
+    if let Some(local) = unsafe { g.local.as_ref() } {
+        local.repin_without_collect();
+    }
+}
+
+/// Global epoch of the collector `g` belongs to.
+pub fn guard_global_epoch(g: &Guard) -> usize {
+    match unsafe { g.local.as_ref() } {
+        Some(local) => local.collector().global_epoch().value(),
+        None => 0,
+    }
+}
+
+// ------------------------------------------------------------------------------------------
+
+/// The collector's internal Michael-Scott queue, instantiated for a harness element type.
+pub struct VQueue<T>(Queue<T>);
+
+impl<T> Default for VQueue<T> {
+    fn default() -> Self {
+        Self::new()
+    }
+}
+
+impl<T> VQueue<T> {
+    pub fn new() -> Self {
+        VQueue(Queue::new())
+    }
+    pub fn push(&self, t: T, g: &Guard) {
+        self.0.push(t, g)
+    }
+    pub fn try_pop(&self, g: &Guard) -> Option<T> {
+        self.0.try_pop(g)
+    }
+    pub fn try_pop_if<F: Fn(&T) -> bool>(&self, f: F, g: &Guard) -> Option<T>
+    where
+        T: Sync,
+    {
+        self.0.try_pop_if(f, g)
+    }
+    /// `(head node, tail node, [(node, value)] reachable from head.next)`.
+    pub unsafe fn dump(&self) -> (usize, usize, Vec<(usize, T)>)
+    where
+        T: Copy,
+    {
+        self.0.verif_dump()
+    }
+}
+
+// ------------------------------------------------------------------------------------------
+
+/// Element type for [`VList`].
+pub struct VElem {
+    entry: Entry,
+    pub id: usize,
+}
+
+impl IsElement<VElem> for VElem {
+    fn entry_of(e: &VElem) -> &Entry {
+        &e.entry
+    }
+    unsafe fn element_of(entry: &Entry) -> &VElem {
+        // `entry` is the first field.
+        let off = memoffset::offset_of!(VElem, entry);
+        &*((entry as *const Entry as usize - off) as *const VElem)
+    }
+    unsafe fn finalize(entry: &Entry, guard: &Guard) {
+        let elem = Self::element_of(entry);
+        crate::verif::ev(crate::verif::site::EV_L_FINALIZE, elem as *const _ as usize, elem.id as u64, 0);
+        guard.defer_destroy(RawShared::from(elem as *const VElem));
+    }
+}
+
+/// The participant registry's intrusive list, instantiated for a harness element type.
+pub struct VList(List<VElem>);
+
+unsafe impl Send for VList {}
+unsafe impl Sync for VList {}
+
+impl Default for VList {
+    fn default() -> Self {
+        Self::new()
+    }
+}
+
+impl VList {
+    pub fn new() -> Self {
+        VList(List::new())
+    }
+    /// Inserts a fresh element with the given id; returns its address.
+    pub fn insert(&self, id: usize, g: &Guard) -> usize {
+        let e = RawShared::from_owned(VElem {
+            entry: Entry::default(),
+            id,
+        });
+        unsafe { self.0.insert(e, g) };
+        e.as_raw() as usize
+    }
+    /// Marks the element at `elem` (returned by `insert`) as deleted.
+    pub unsafe fn delete(&self, elem: usize, g: &Guard) {
+        (*(elem as *const VElem)).entry.delete(g)
+    }
+    /// One traversal in the style of `try_advance`: ids visited, and whether it stopped on `Stalled`.
+    pub fn traverse(&self, g: &Guard) -> (Vec<usize>, bool) {
+        let mut seen = Vec::new();
+        for e in self.0.iter(g) {
+            match e {
+                Err(IterError::Stalled) => return (seen, true),
+                Ok(elem) => seen.push(elem.id),
+            }
+        }
+        (seen, false)
+    }
+    /// `[(id, marked)]` of the entries currently linked from the head.
+    pub unsafe fn dump(&self) -> Vec<(usize, bool)> {
+        self.0
+            .verif_dump()
+            .into_iter()
+            .map(|(entry, marked)| {
+                let elem = <VElem as IsElement<VElem>>::element_of(&*(entry as *const Entry));
+                (elem.id, marked)
+            })
+            .collect()
+    }
+}
